@@ -565,7 +565,7 @@ def check_image_readonly(ctx, quals=(QUAL, f"{IMG}.refine_droplets", f"{IMG}.loc
                         bad.append((g, s))
                 if isinstance(s, ast.Call):
                     o = kwarg(s, "out") or kwarg(s, "output")
-                    if o is not None and p in names_in(o):
+                    if o is not None and (p in names_in(o) or names_in(o) & alias):
                         bad.append((g, s))
         ctx.decide(not bad, "EFFECT", f"{q}:{p}", (bad[0][0], bad[0][1]) if bad else fi, f"nothing is written through `{p}`",
                    f"`{U(bad[0][1])[:70] if bad else ''}` writes through the input image `{p}` (or an object reached from it, which every other task analysing the same image or grid shares)")
